@@ -328,6 +328,18 @@ Theorem C03_text_fair_completion : forall eol, eol_ok eol ->
 Proof. exact text_fair_completion. Qed.
 Print Assumptions C03_text_fair_completion.
 
+(* the receiver alone, fed by a foreign sender in which every line has its OWN terminator (CR, LF or CRLF; the one
+   inherently ambiguous combination -- a CR-terminated line directly followed by an empty LF-terminated line -- excluded):
+   for every sequence of DoInput calls (any maxBytes, any read scripts) the lines delivered are a prefix of the lines
+   sent, and all of them, with nothing left buffered, once the stream has been consumed *)
+Theorem C03_text_mixed_terminators : forall (lts : list (bytes * bytes)) (calls : list (N * list N)),
+  mixed_ok false lts ->
+  let '(st', outs, pipe') := t_recv_run tr_init (mixed_wire lts) calls in
+  (exists tl, map fst lts = concat outs ++ tl) /\
+  (pipe' = [] -> concat outs = map fst lts /\ tr_text st' = []).
+Proof. exact text_mixed_terminators. Qed.
+Print Assumptions C03_text_mixed_terminators.
+
 (* outside the domain: with a NUL byte in the stream what is delivered depends on the segmentation *)
 Theorem C03_text_nul_refuted :
   let big := c_MUSCLE_NO_LIMIT in
@@ -542,5 +554,18 @@ Example C03_websocket_nonvacuous :
 Proof.
   split; [repeat constructor|]. split.
   - repeat constructor; vm_compute; try discriminate; reflexivity.
+  - vm_compute. auto.
+Qed.
+
+(* lines with mixed terminators, read in pieces that split a CRLF: "ab" CR, "" CRLF, "c" LF, "" CR, "d" CRLF *)
+Example C03_text_mixed_nonvacuous :
+  let lts := [([97; 98], [CR]); ([], [CR; LF]); ([99], [LF]); ([], [CR]); ([100], [CR; LF])] in
+  mixed_ok false lts /\
+  let '(st', outs, pipe') := t_recv_run tr_init (mixed_wire lts) [(4, [ex_big]); (ex_big, [1]); (0, [5]); (ex_big, [3]); (ex_big, [ex_big])] in
+  pipe' = [] /\ concat outs = [[97; 98]; []; [99]; []; [100]].
+Proof.
+  split.
+  - cbn. repeat split; try (repeat constructor; discriminate); try (left; reflexivity); try (right; left; reflexivity);
+      try (right; right; reflexivity); intros (H1 & H2 & H3); discriminate.
   - vm_compute. auto.
 Qed.
